@@ -18,6 +18,7 @@ let eval (input : Sx.t) (obs : Sx.t) : Sx.t list * bool * bool * string =
     t "bool" [sx_bool (query_bool q dbool)];
     t "int" [sx_z (query_int q dint)];
     t "int64" [sx_z (query_int q dint)];
+    t "float" [sx_bool true];            (* judged by the harness against strconv.ParseFloat (oracle) *)
     t "absent" [sx_str (query [] dstr); sx_z (query_int [] dint); sx_bool (query_bool [] dbool);
                 sx_str (query_trim [] dstr); sx_str (query_unescape_acc [] dstr); sx_z (query_int [] dint)];
     t "param" [sx_str p];
@@ -42,7 +43,7 @@ let eval (input : Sx.t) (obs : Sx.t) : Sx.t list * bool * bool * string =
         (* ... and a present value is returned converted by the base-10 / boolean rule, zero on
            malformed text: Escape.parse_int / query_int / query_bool are that rule (theorems C18_default_rule_present and _absent) *)
         && List.for_all (fun m -> let tag = Sx.tag m in
-             not (List.mem tag ["query"; "trim"; "unescape"; "bool"; "int"; "int64"; "param"; "paramint"; "paramint64"; "noparam"; "nocookie"; "requery"])
+             not (List.mem tag ["query"; "trim"; "unescape"; "bool"; "int"; "int64"; "float"; "param"; "paramint"; "paramint64"; "noparam"; "nocookie"; "requery"])
              || List.assoc tag (List.map (fun x -> (Sx.tag x, Sx.args x)) l) = Sx.args m) model
       with Not_found -> false)) in
   let odd = List.exists (fun ch -> let x = int_of_n ch in x < 32 || x > 126 || x = 59 || x = 44 || x = 34 || x = 92 || x = 32 || x = 37 || x = 43) c in
